@@ -12,6 +12,11 @@ META: dict[str, dict[str, str]] = {
         "note": "Argument order of sympy's Rotation.D and CG; an edit that skips provably vanishing terms would be reported by R-FOLD (none exists)." + COMMON_NOTE,
         "technique": "static analysis: term extraction with role comparison against the stated formula; must-use dataflow over loops and comprehensions of the fold chain",
     },
+    "C03": {
+        "level": "Decides that the prefactor attached to a chain is built from the parity factors of exactly the nodes whose coefficient was mapped to a partner: every returned value depends on the node loop variable, every in-loop contribution is control-dependent on the per-node test `mapped suffix != raw suffix` and takes interactions[node].parity_prefactor of that node; plus the construction of the partner suffix (both daughters negated, parent helicity suppressed). Equivalence with the canonical formalism for all LS values is not decided.",
+        "note": "qrules' parity_prefactor is the eta of that node." + COMMON_NOTE,
+        "technique": "static analysis: data dependence (reaching definitions) and control dependence of returns/accumulator updates on the node loop",
+    },
     "C04": {
         "level": "Decides the structural necessary conditions of rotation invariance: key/value provenance of every angle store in compute_helicity_angles (R-PROV; the sibling-named, child-filled store is recorded known finding K1), the frame chain B_z(|P|/E) R_y(-theta) R_z(-phi) of one summed momentum with recursion into the boosted pool, identical resolution of the opposite-helicity state at every consumer of the angle names, and the (-phi, theta, 0) convention of the Wigner-D. Numerical invariance is not decided.",
         "note": "qrules Topology API; is_opposite_helicity_state is a total order on siblings." + COMMON_NOTE,
